@@ -165,14 +165,12 @@ Proof.
     dinv H; simpl in *.
     destruct Hpipe as [E1 [E2 _]]. destruct r; try discriminate. simpl in Hcons.
     constructor; simpl; auto; try discriminate; fin.
-    + exists lost. split; auto.
-    + intros Hm. subst mp. discriminate.
+    exists lost. split; auto.
   - (* EndRun *)
     destruct mp; try exact H. destruct mn; try exact H. dinv H; simpl in *.
     destruct (nosent pp) eqn:Hns.
     + destruct (Hpipe eq_refl) as [Ep _]. subst pp.
       constructor; simpl; auto; try discriminate; fin.
-      exists lost. split; auto.
     + destruct Hpipe as [_ [_ C]]. exfalso; apply C; reflexivity.
 Qed.
 
@@ -258,33 +256,31 @@ Record binv (s : st) : Prop := mkBinv {
   b_quiet : before_start_run (main s) = true -> emitted s = []
 }.
 
+Ltac same := try (constructor; simpl in *; auto; try (intros; discriminate); fail).
+
 Lemma step_binv : forall script s l, inv script s -> binv s -> binv (step true s l).
 Proof.
   intros script s l H B.
   destruct s as [td em bf pp ch wd mn dl mp lg].
   destruct B as [Bph Bq]. simpl in *.
   destruct l; unfold step; simpl.
-  - destruct mp; try (constructor; assumption). constructor; simpl; auto.
-  - destruct mp; try (constructor; assumption). constructor; simpl.
+  - destruct mp; same.
+  - destruct mp; same. constructor; simpl.
     + rewrite phase_from_app, Bph. reflexivity.
     + intros; discriminate.
-  - destruct ch; try (constructor; assumption). destruct td; try (constructor; assumption).
-    destruct (before_start_run mp) eqn:E; simpl; try (constructor; assumption).
+  - destruct ch; same. destruct td; same.
+    destruct (before_start_run mp) eqn:E; simpl; same.
     constructor; simpl; auto. intros E'. rewrite E in E'. discriminate.
-  - destruct ch; try (constructor; assumption). destruct bf; try (constructor; assumption).
-    constructor; simpl; auto.
-  - destruct ch; try (constructor; assumption). destruct td; try (constructor; assumption).
-    destruct bf; try (constructor; assumption). constructor; simpl; auto.
-  - destruct ch; try (constructor; assumption). constructor; simpl; auto.
-  - destruct ch; try (constructor; assumption). constructor; simpl; auto.
-  - destruct mp; try (constructor; assumption). destruct ch; try (constructor; assumption);
-      constructor; simpl; auto; intros; discriminate.
-  - destruct mp; try (constructor; assumption). destruct (pipe_empty pp); try (constructor; assumption).
-    constructor; simpl; auto; intros; discriminate.
-  - destruct mp; try (constructor; assumption). constructor; simpl; auto; intros; discriminate.
-  - destruct mp; try (constructor; assumption). constructor; simpl; auto; intros; discriminate.
+  - destruct ch; same. destruct bf; same.
+  - destruct ch; same. destruct td; same. destruct bf; same.
+  - destruct ch; same.
+  - destruct ch; same.
+  - destruct mp; same. destruct ch; same.
+  - destruct mp; same. destruct (pipe_empty pp); same.
+  - destruct mp; same.
+  - destruct mp; same.
   - (* MonTake *)
-    destruct mn; try (constructor; assumption). destruct pp as [ | [z | ] r]; try (constructor; assumption).
+    destruct mn; same. destruct pp as [ | [z | ] r]; same.
     dinv H; simpl in *.
     assert (Hnb : before_start_run mp = false).
     { destruct (before_start_run mp) eqn:E; auto. rewrite (Bq eq_refl) in Hcons.
@@ -294,18 +290,17 @@ Proof.
     + rewrite phase_from_app, Bph. destruct mp; simpl in *; try discriminate; try reflexivity. contradiction.
     + rewrite Hnb. intros; discriminate.
   - (* MonDeliver *)
-    destruct mn; try (constructor; assumption).
+    destruct mn; same.
     dinv H; simpl in *.
     assert (Hnb : before_start_run mp = false).
     { destruct (before_start_run mp) eqn:E; auto. rewrite (Bq eq_refl) in Hcons.
-      destruct (Hbusy z eq_refl) as [d Hd]. subst dl. destruct d; discriminate. }
+      destruct (Hbusy z eq_refl) as [d Hd]. rewrite Hd in Hcons. destruct d; discriminate. }
     assert (Hne : mp <> PEndRun). { intros E. specialize (Hend E). discriminate. }
     constructor; simpl.
     + rewrite phase_from_app, Bph. destruct mp; simpl in *; try discriminate; try reflexivity. contradiction.
     + rewrite Hnb. intros; discriminate.
-  - destruct mn; try (constructor; assumption). destruct pp as [ | [z | ] r]; try (constructor; assumption).
-    constructor; simpl; auto.
-  - destruct mp; try (constructor; assumption). destruct mn; try (constructor; assumption).
+  - destruct mn; same. destruct pp as [ | [z | ] r]; same.
+  - destruct mp; same. destruct mn; same.
     constructor; simpl.
     + rewrite phase_from_app, Bph. reflexivity.
     + intros; discriminate.
@@ -361,13 +356,9 @@ Fixpoint alt_state (open : option Z) (l : list obs) : option (option Z) :=
 Lemma alt_state_app : forall l open o,
   alt_state open (l ++ [o]) = match alt_state open l with Some op => alt_state op [o] | None => None end.
 Proof.
-  induction l as [ | x l IH]; intros open o; simpl.
-  - destruct o; simpl; try reflexivity.
-    + destruct open; reflexivity.
-    + destruct open; try reflexivity. destruct (Z.eqb z0 z); reflexivity.
-  - destruct x; simpl; auto.
-    + destruct open; auto.
-    + destruct open; auto. destruct (Z.eqb z0 z); auto.
+  induction l as [ | x l IH]; intros open o.
+  - reflexivity.
+  - simpl. destruct x; try apply IH; destruct open; try reflexivity; try apply IH. match goal with |- context [Z.eqb ?a ?b] => destruct (Z.eqb a b) end; [apply IH | reflexivity].
 Qed.
 
 Lemma alternating_alt : forall l open, alternating open l = true <-> exists op, alt_state open l = Some op.
@@ -424,30 +415,27 @@ Record winv (s : st) : Prop := mkWinv {
   w_main : main s <> PEndRun
 }.
 
+Ltac wsame := try (constructor; simpl in *; auto; try discriminate; fail).
+
 Lemma step_winv : forall boot s l, winv s -> winv (step boot s l).
 Proof.
   intros boot s l [W1 W2 W3 W4]. destruct s as [td em bf pp ch wd mn dl mp lg]. simpl in *. subst wd.
   destruct l; unfold step; simpl.
-  - destruct mp; constructor; simpl; auto; discriminate.
-  - destruct mp; constructor; simpl; auto; discriminate.
-  - destruct ch; try (constructor; simpl; auto; fail). destruct td; try (constructor; simpl; auto; fail).
-    destruct (boot && before_start_run mp); constructor; simpl; auto.
-  - destruct ch; try (constructor; simpl; auto; fail). destruct bf; constructor; simpl; auto.
-    rewrite nosent_app_ev. exact W2.
-  - destruct ch; try (constructor; simpl; auto; fail). destruct td; try (constructor; simpl; auto; fail).
-    destruct bf; constructor; simpl; auto.
-  - destruct ch; constructor; simpl; auto.
-  - destruct ch; constructor; simpl; auto.
-  - destruct mp; try (constructor; simpl; auto; fail). destruct ch; constructor; simpl; auto; discriminate.
-  - destruct mp; try (constructor; simpl; auto; fail). destruct (pipe_empty pp); constructor; simpl; auto; discriminate.
-  - destruct mp; constructor; simpl; auto; discriminate.
-  - destruct mp; constructor; simpl; auto; discriminate.
-  - destruct mn; try (constructor; simpl; auto; fail). destruct pp as [ | [z | ] r]; constructor; simpl in *; auto; discriminate.
-  - destruct mn; constructor; simpl; auto; discriminate.
-  - destruct mn; try (constructor; simpl; auto; fail). destruct pp as [ | [z | ] r]; try (constructor; simpl in *; auto; fail).
-    simpl in W2. discriminate.
-  - destruct mp; try (constructor; simpl; auto; fail). destruct mn; try (constructor; simpl; auto; discriminate).
-    exfalso. apply W3. reflexivity.
+  - destruct mp; wsame.
+  - destruct mp; wsame.
+  - destruct ch; wsame. destruct td; wsame. destruct (boot && before_start_run mp); wsame.
+  - destruct ch; wsame. destruct bf; wsame. constructor; simpl; auto. rewrite nosent_app_ev. exact W2.
+  - destruct ch; wsame. destruct td; wsame. destruct bf; wsame.
+  - destruct ch; wsame.
+  - destruct ch; wsame.
+  - destruct mp; wsame. destruct ch; wsame.
+  - destruct mp; wsame. destruct (pipe_empty pp); wsame.
+  - destruct mp; wsame.
+  - destruct mp; wsame.
+  - destruct mn; wsame. destruct pp as [ | [z | ] r]; wsame.
+  - destruct mn; wsame.
+  - destruct mn; wsame. destruct pp as [ | [z | ] r]; wsame.
+  - destruct mp; wsame. destruct mn; wsame.
 Qed.
 
 Lemma kill_mid_write_wedges : forall boot script ls1 ls2,
